@@ -1,1 +1,84 @@
-fn main() { println!("tcmc"); }
+#![allow(dead_code)]
+mod explore;
+mod model;
+mod props;
+mod util;
+mod world;
+
+use util::{Opts, Tier};
+
+fn main() {
+    // keep megabyte buffers on the heap free lists instead of mmap/munmap per allocation
+    unsafe {
+        libc::mallopt(libc::M_MMAP_THRESHOLD, 1 << 30);
+        libc::mallopt(libc::M_TRIM_THRESHOLD, i32::MAX);
+    }
+    let args: Vec<String> = std::env::args().skip(1).collect();
+    if args.is_empty() {
+        eprintln!("usage: tcmc <property|selftest|replay> [--tier quick|thorough] [--replay file] [--budget secs]");
+        std::process::exit(2);
+    }
+    let cmd = args[0].to_uppercase();
+    let mut tier = match std::env::var("VERIF_TIER").ok().as_deref() {
+        Some("thorough") => Tier::Thorough,
+        _ => Tier::Quick,
+    };
+    let mut replay = None;
+    let mut budget: Option<f64> = None;
+    let mut extra = vec![];
+    let mut i = 1;
+    while i < args.len() {
+        match args[i].as_str() {
+            "--tier" => {
+                tier = if args.get(i + 1).map(|s| s.as_str()) == Some("thorough") { Tier::Thorough } else { Tier::Quick };
+                i += 1;
+            }
+            "--replay" => {
+                replay = args.get(i + 1).map(std::path::PathBuf::from);
+                i += 1;
+            }
+            "--budget" => {
+                budget = args.get(i + 1).and_then(|s| s.parse().ok());
+                i += 1;
+            }
+            other => extra.push(other.to_string()),
+        }
+        i += 1;
+    }
+    let seed = std::env::var("VERIF_SEED").ok().and_then(|s| s.parse().ok()).unwrap_or(0);
+    let opts = Opts {
+        tier,
+        seed,
+        replay,
+        budget_s: budget.unwrap_or(if tier == Tier::Quick { 45.0 } else { 900.0 }),
+        extra,
+    };
+    // deterministic environment for git
+    std::env::set_var("GIT_CONFIG_NOSYSTEM", "1");
+    std::env::set_var("GIT_AUTHOR_DATE", "2024-01-01T00:00:00Z");
+    std::env::set_var("GIT_COMMITTER_DATE", "2024-01-01T00:00:00Z");
+    let code = std::panic::catch_unwind(|| dispatch(&cmd, &opts));
+    util::cleanup_scratch();
+    match code {
+        Ok(c) => std::process::exit(c),
+        Err(_) => {
+            eprintln!("MACHINERY ERROR: engine panicked");
+            std::process::exit(3);
+        }
+    }
+}
+
+fn dispatch(cmd: &str, opts: &Opts) -> i32 {
+    if let Some(p) = &opts.replay {
+        return props::replay_file(p);
+    }
+    match cmd {
+        "C01" => props::c01::run(opts),
+        "C12" => props::c12::run(opts),
+        "C14" => props::c14::run(opts),
+        _ => {
+            eprintln!("unknown command {cmd}");
+            2
+        }
+    }
+}
